@@ -155,6 +155,9 @@ TProbe ==
     /\ LET r == Log[l] IN
        /\ r.e = "call" /\ Has(r, "probe")
        /\ (Has(r, "obs") => SelfForestOK(r.obs))
+       \* C11 on the stored rows alone: whatever was called with whatever arguments, SQLite's integrity and foreign-key checks stay
+       \* clean and verify() passes (a membership row naming a crate or a track that does not exist is a foreign-key violation)
+       /\ (Has(r, "raw") => Sane(r.raw))
        /\ r.out \in {"ok", "throw"} /\ (r.out = "throw" => r.std)
        /\ (Has(r, "obs_throw") => r.obs_throw.std)
        /\ (Has(r, "probes") => \A k \in DOMAIN r.probes : r.probes[k].std)
